@@ -1472,20 +1472,6 @@ def from_awkward0(
                 )
             return out
 
-        elif isinstance(array, awkward0.MaskedArray):
-            # mask, content, maskedwhen
-            mask = ak.layout.Index8(array.mask.view(np.int8).reshape(-1))
-            out = ak.layout.ByteMaskedArray(
-                mask,
-                recurse(array.content, level + 1),
-                valid_when=(not array.maskedwhen),
-            )
-            for i in range(len(array.mask.shape) - 1, 0, -1):
-                out = ak.layout.RegularArray(
-                    out, array.mask.shape[i], array.mask.shape[i - 1]
-                )
-            return out
-
         elif isinstance(array, awkward0.BitMaskedArray):
             # mask, content, maskedwhen, lsborder
             mask = ak.layout.IndexU8(array.mask.view(np.uint8))
@@ -1518,6 +1504,20 @@ def from_awkward0(
             for i in range(len(array.index.shape) - 1, 0, -1):
                 out = ak.layout.RegularArray(
                     out, array.index.shape[i], array.index.shape[i - 1]
+                )
+            return out
+
+        elif isinstance(array, awkward0.MaskedArray):
+            # mask, content, maskedwhen
+            mask = ak.layout.Index8(array.mask.view(np.int8).reshape(-1))
+            out = ak.layout.ByteMaskedArray(
+                mask,
+                recurse(array.content, level + 1),
+                valid_when=(not array.maskedwhen),
+            )
+            for i in range(len(array.mask.shape) - 1, 0, -1):
+                out = ak.layout.RegularArray(
+                    out, array.mask.shape[i], array.mask.shape[i - 1]
                 )
             return out
 
